@@ -27,6 +27,9 @@ func propC18(c *Ctx, r *Report) {
 	r.Clauses = append(r.Clauses, "binding-array range (E42): both writers of a binding array's register range (PSV0 resource records and dx.resources metadata) dereference the caller's BindingArraySize hint only under a condition that establishes that the IR type declares no size, so the two records of one container agree")
 	c.runArraySizePrecedence(r, "precedence.arraysize", inPkgs("dxil"))
 	r.floor("precedence.arraysize", 2)
+	r.Clauses = append(r.Clauses, "workgroup size products (E50): a product of three or more factors drawn from the elements of one three-element array uses each index exactly once")
+	c.runDimsProduct(r, "dims.product", inPkgs("dxil"))
+	r.floor("dims.product", 2)
 	r.Clauses = append(r.Clauses, accumDroppedClause)
 	c.runAccumDropped(r, "accum.dropped", inPkgs("dxil"))
 	r.floor("accum.dropped", 5)
